@@ -15,12 +15,15 @@ the semantic actions, all four recovery modes, the dangling-dot node, the reslic
 * every token starts no later than the next one starts, and — unless it is a string literal or a comment —
   ends no later than the next one starts;
 * no token ends on a line after the line on which the last token ends.
-It is deliberately this weak, because the lexer's ranges are: a token's range is `start … start + value.len()`
-with the length of its VALUE in BYTES (`create_range`), so `''` and a comment `;` at the end of a line are EMPTY
-tokens, and a literal or comment holding multi-byte characters reaches over the tokens that follow it on its
-line (`'漢漢'.x`: the literal is `0:0-0:6`, the `.` is `0:4-0:5`).  Both occur in the fixtures; `./check C08`
-evaluates the guard on every token list that comes from the real lexer.  (`Gold.C08.Sorted`, the hypothesis
-of `recovery_diag_ok`, is NOT implied: it wants ends in order.)
+It is deliberately this weak: a token's range covers its VALUE (`create_range`), so `''` and a comment `;` at the
+end of a line are EMPTY tokens, and — before the repair of the end columns (`start + value.len()`, the length in
+BYTES; now `value.chars().count()`) — a literal or comment holding multi-byte characters reached over the tokens that
+follow it on its line (`'漢漢'.x`: the literal was `0:0-0:6`, the `.` is `0:4-0:5`; `Gold.C06.lexBytes_overlaps`).
+The exception for string literals and comments is no longer needed by the lexer — `Props/C08Text.lean` PROVES that
+the tokens of `lex upper src` satisfy the guard, even without the exception, for every text (`lex_tight`,
+`lex_lexical`, `t5_text`) — and is kept because it makes the hypothesis weaker.  `./check C08` also evaluates the
+guard on every token list that comes from the real lexer.  (`Gold.C08.Sorted`, the hypothesis of
+`recovery_diag_ok`, is NOT implied: it wants ends in order.)
 
 **The full statement under the weaker hypothesis `Sorted` is FALSE** (`t5_sorted_fails`), of the
 model and — replayed through the harness — of the implementation: `parse_dot_ops` gives the
